@@ -29,11 +29,12 @@ fn oligo_cases(rng: &mut Rng, cases: &mut u64) -> Option<Vec<(String, String)>> 
         for (preset, delim) in [("csv", ","), ("tsv", "\t"), ("spc", " ")] {
             for counts in [false, true] {
                 for header in [false, true] {
-                    for threads in ["0", "1", "5"] {
+                    for threads in ["", "0", "1", "5"] {
                         let sc = Scratch::new("cli");
                         let inp = sc.path("in.fa"); let out = sc.path("out.txt");
                         write_fasta(&inp, &recs);
-                        let mut a = sv(&["comp", "oligo", "-i", &inp, "-o", &out, "-k", &k.to_string(), "-p", preset, "-t", threads]);
+                        let mut a = sv(&["comp", "oligo", "-i", &inp, "-o", &out, "-k", &k.to_string(), "-p", preset]);
+                        if !threads.is_empty() { a.push("-t".into()); a.push(threads.to_string()); }
                         if counts { a.push("-c".into()); }
                         if header { a.push("-H".into()); }
                         *cases += 1;
@@ -83,11 +84,12 @@ fn cgr_cases(rng: &mut Rng, cases: &mut u64) -> Option<Vec<(String, String)>> {
     let recs = test_recs(rng, 4);
     for k in [3usize, 4, 6] {
         for v in (if k == 6 { vec![None] } else { vec![None, Some(1usize), Some(2), Some(7), Some(1 << 20)] }) {
-            for counts in [false, true] {
+            for (counts, with_t) in [(false, true), (true, true), (false, false), (true, false)] {
                 let sc = Scratch::new("cli");
                 let inp = sc.path("in.fa"); let out = sc.path("out.txt"); let lib = sc.path("lib.txt");
                 write_fasta(&inp, &recs);
-                let mut a = sv(&["comp", "cgr", "-i", &inp, "-o", &out, "-k", &k.to_string(), "-t", "2"]);
+                let mut a = sv(&["comp", "cgr", "-i", &inp, "-o", &out, "-k", &k.to_string()]);
+                if with_t { a.push("-t".into()); a.push("2".into()); }   // the worker option present or left to its default
                 if let Some(v) = v { a.push("-v".into()); a.push(v.to_string()); }
                 if counts { a.push("-c".into()); }
                 *cases += 1;
